@@ -448,7 +448,7 @@ func runCell(wLocal, wRemote *world, in cellIn) (out cellOut) {
 		return fc, c, a
 	}
 	defer func() {
-		bounded(func() { w.fx.Session.VerifDropBridge(tunnelID) })
+		w.fx.Session.VerifForgetBridge(tunnelID)
 		for _, f := range fakes {
 			f.Close()
 		}
